@@ -146,7 +146,7 @@ def prepare(tier, vf):
         hdr = {
             "defines": ["-DJANET_NO_NANBOX"],
             "units": ["vm.c", "fiber.c", "value.c", "wrap.c", "state.c", "util.c", "tuple.c", "array.c"],
-            "remove_bodies": ["janet_binop_call", "janet_mcall", "janet_getmethod", "janet_sandbox", "janet_sandbox_assert", "janet_init", "janet_deinit"],
+            "remove_bodies": ["safe_memcpy", "janet_binop_call", "janet_mcall", "janet_getmethod", "janet_sandbox", "janet_sandbox_assert", "janet_init", "janet_deinit"],
             "cbmc": ["--no-built-in-assertions", "--paths", "lifo"],
             "no_body_deny_re": "^(janet_(fiber|continue|call|in|get|put|next|length|binop|mcall|tuple|array|struct|table)|run_vm)",
             "backend": "cadical", "unwind": 24, "unwind_functions": {"run_vm": 60, "memcpy": 200, "memmove": 200}, "timeout": 400, "mem_gb": 4,
